@@ -999,6 +999,18 @@ func (fr *Frame) loopModifies(h *ssa.BasicBlock) []string {
 			case *ssa.MapUpdate:
 				set[vc.mapComp(ins.Map.Type().Underlying().(*types.Map))] = true
 				set[vc.mapLenComp()] = true
+				if fr.spec != nil {
+					for _, at := range fr.spec.Ats {
+						if at.Ghost != nil && strings.HasPrefix(at.Callee, "mapupdate:") {
+							for _, g := range vc.db.Ghosts {
+								if g.Name == at.Ghost.Name {
+									vc.comp(g.Name, g.Sort)
+									set[g.Name] = true
+								}
+							}
+						}
+					}
+				}
 			case *ssa.Send:
 				set[vc.chsentComp()] = true
 				if fr.spec != nil {
